@@ -172,7 +172,7 @@ theorem sem_rest (ρ : Env) : ∀ (rest : Rest) (pty : Ty) (accE : Expr) (acc v 
         cases b with
         | true =>
           simp only at h
-          refine sem_rest ρ rest ty _ (.bool true) v hcr ?_ h
+          refine sem_rest ρ rest _ _ (.bool true) v hcr ?_ h
           simp only [denoteCpp, hacc]; rfl
         | false =>
           simp only at h
@@ -185,7 +185,7 @@ theorem sem_rest (ρ : Env) : ∀ (rest : Rest) (pty : Ty) (accE : Expr) (acc v 
             | bool b' =>
               simp only at h
               have ih := sem_node ρ e (.bool b') hce he
-              refine sem_rest ρ rest ty _ (.bool b') v hcr ?_ h
+              refine sem_rest ρ rest _ _ (.bool b') v hcr ?_ h
               simp only [denoteCpp, hacc, ih, repr_bool, b2i_not_ne_zero]; rfl
     · by_cases ha : op = .and
       · subst ha
@@ -196,7 +196,7 @@ theorem sem_rest (ρ : Env) : ∀ (rest : Rest) (pty : Ty) (accE : Expr) (acc v 
           cases b with
           | false =>
             simp only at h
-            refine sem_rest ρ rest ty _ (.bool false) v hcr ?_ h
+            refine sem_rest ρ rest _ _ (.bool false) v hcr ?_ h
             simp only [denoteCpp, hacc]; rfl
           | true =>
             simp only at h
@@ -209,13 +209,13 @@ theorem sem_rest (ρ : Env) : ∀ (rest : Rest) (pty : Ty) (accE : Expr) (acc v 
               | bool b' =>
                 simp only at h
                 have ih := sem_node ρ e (.bool b') hce he
-                refine sem_rest ρ rest ty _ (.bool b') v hcr ?_ h
+                refine sem_rest ρ rest _ _ (.bool b') v hcr ?_ h
                 simp only [denoteCpp, hacc, ih, repr_bool, b2i_not_ne_zero]; rfl
       · have hstep : ∀ r v', denotePy ρ e = .ok r → pyBin op acc r = .ok v' → denoteRest ρ v' rest = .ok v →
             denoteCpp ρ (pyRestL (.bin op.code accE (pyExprL e)) rest) = .ok v.repr := by
           intro r v' he hb hrest
           have ih := sem_node ρ e r hce he
-          exact sem_rest ρ rest ty _ v' v hcr (step_plain ρ hs ho ha hacc ih hb) hrest
+          exact sem_rest ρ rest _ _ v' v hcr (step_plain ρ hs ho ha hacc ih hb) hrest
         cases op <;> first
           | exact absurd rfl ho
           | exact absurd rfl ha
